@@ -1,10 +1,11 @@
 #!/bin/sh
 # re-validates every kept seed against /repo HEAD: the patch applies, the suite passes with it, the demo separates the trees, the property's check reports a violation
+# usage: ./seedall.sh [jobs]   (default 4 seeds at a time; each in its own scratch worktree, removed afterwards)
 cd /verif
-for d in seeded/*/; do
-  id=$(basename $d); prop=$(echo $id | cut -d- -f1)
-  WT=/tmp/wt-seedall-$$
-  git -C /repo worktree add -q --detach $WT HEAD || exit 9
+one() {
+  d=$1; id=$(basename $d); prop=$(echo $id | cut -d- -f1)
+  WT=/tmp/wt-seedall-$id-$$
+  git -C /repo worktree add -q --detach $WT HEAD || { echo "$id WORKTREE-FAILED"; return; }
   if git -C $WT apply --3way $d/patch.diff 2>/dev/null || (cd $WT && patch -p1 --fuzz=3 -s < /verif/$d/patch.diff >/dev/null 2>&1); then
     suite=$(cd $WT && /venv/bin/python -m pytest -q -p no:cacheprovider --timeout=900 2>&1 | tail -1 | cut -c1-40)
     PDFMINER_ROOT=$WT /venv/bin/python $d/demo.py >/dev/null 2>&1; dm=$?
@@ -15,4 +16,7 @@ for d in seeded/*/; do
     echo "$id PATCH-DOES-NOT-APPLY"
   fi
   git -C /repo worktree remove --force $WT
-done
+}
+if [ "$1" = "--one" ]; then one $2; exit 0; fi
+ls -d seeded/*/ | xargs -P ${1:-4} -n 1 sh $0 --one | sort
+git -C /repo worktree prune
